@@ -313,6 +313,48 @@ theorem C08_unknown_checks (p : Policy) (r : Req) (w : Nat) (l : List Nat) (hs :
     (h : validateOnchain p r w = .unknown l) : NonDestChecks p r :=
   validate_pass p r w hs _ h (Or.inr ⟨l, rfl⟩)
 
+/-- **C08 (value, any filter)**: with nothing assumed about the policy filter except that the fee-range tag is an
+    error (and the dev flag off), an accepted transaction satisfies the fee bound for
+    `nb = Σinputs − Σcredited`, where a funded channel is credited **net of its push** (`chanStep_add_net`) and a
+    tolerated (warn-only) output is credited nothing. -/
+theorem C08_value_any_filter (p : Policy) (r : Req) (w nb : Nat) (hf : p.flt.feeRange = true)
+    (hdev : p.devDisable = false) (h : validateOnchain p r w = .ok nb) :
+    sumCredit p.flt r.outs ≤ r.inValues.sum ∧ nb = r.inValues.sum - sumCredit p.flt r.outs ∧
+    0 < w ∧ (nb * 1000 + 999) / w ≤ p.maxFeerate := by
+  unfold validateOnchain at h
+  split at h
+  · cases h
+  split at h
+  · cases h
+  split at h
+  · cases h
+  split at h
+  · cases h
+  split at h
+  · cases h
+  · cases h
+  · rename_i sumOut unk hloop
+    split at h
+    · cases h
+    · have e1 := outLoop_credit p.flt _ _ _ _ _ _ _ hloop
+      split at h
+      · cases h
+      · rename_i sumIn hin
+        have hsum := sumInputs_some _ _ _ hin
+        obtain ⟨b1, b2, b3, b4⟩ := beneficialValue_ok p sumIn sumOut w nb hdev hf h
+        exact ⟨by omega, by omega, b3, b4⟩
+
+/-- with only policy-onchain-no-channel-push demoted to a warning a pushed channel is tolerated, but the push is
+    counted as fee: 3000 sat pushed on top of a 1000 sat fee is refused at 253 sat/kw, and accepted (nb = 4000) with
+    room under 333333 sat/kw -/
+example :
+    validateOnchain ⟨253, false, { Filter.default with noChannelPush := false }⟩
+      ⟨2, 100, 600, 1, [true], [1001000], [], 1,
+        [⟨1000000, 0, some false, false, .no, some ⟨1000000, true, true, 3000000, 1⟩⟩]⟩ 600 = .err .feeRange
+  ∧ validateOnchain ⟨333333, false, { Filter.default with noChannelPush := false }⟩
+      ⟨2, 100, 600, 1, [true], [1001000], [], 1,
+        [⟨1000000, 0, some false, false, .no, some ⟨1000000, true, true, 3000000, 1⟩⟩]⟩ 600 = .ok 4000 := by decide
+
 /-! ### Fee velocity (via the C12 theorems) -/
 
 /-- the approved-fee log after one check -/
